@@ -17,7 +17,7 @@ ST = 'jesse.strategies.Strategy.Strategy'
 PO = 'jesse.models.Position.Position'
 CT = 'jesse.store.state_completed_trades.ClosedTrades'
 TR = 'jesse.models.ClosedTrade.ClosedTrade'
-FUNCTIONS = [f'{ST}._on_updated_position', f'{ST}._terminate', f'{PO}._on_executed_order', f'{PO}._mutating_open',
+FUNCTIONS = ['jesse.models.ClosedTrade.ClosedTrade.to_dict', 'jesse.modes.backtest_mode._simulate_price_change_effect_multiple_candles', f'{ST}._on_updated_position', f'{ST}._terminate', f'{PO}._on_executed_order', f'{PO}._mutating_open',
              f'{PO}._mutating_close', f'{PO}._mutating_increase', f'{PO}._mutating_reduce', f'{CT}.open_trade', f'{CT}.close_trade',
              f'{CT}.add_executed_order', f'{CT}.add_order_record_only', f'{TR}.qty', f'{TR}.entry_price', f'{TR}.exit_price',
              f'{TR}.pnl', f'{TR}.size', 'jesse.models.Order.Order.execute', 'jesse.helpers.estimate_PNL']
@@ -218,6 +218,7 @@ def t_trade_fields(ptype):
         eq, xq = h.spec('col_sum', ent, 0), h.spec('col_sum', ext, 0)
         h.assume(ops.compare('>', eq, 0))
         h.assume(ops.compare('>', xq, 0))
+        h.assume(ops.compare('>', h.spec('notional', ent), 0))          # prices are positive
         qty = h.attr(trade, 'qty')
         h.prove(ops.equal(qty, eq), f'trade.{ptype}.qty-is-the-entry-side-quantity')
         h.prove(ops.equal(h.attr(trade, 'entry_price'), ops.arith('/', h.spec('notional', ent), eq)),
@@ -226,6 +227,27 @@ def t_trade_fields(ptype):
                 f'trade.{ptype}.exit-price-is-quantity-weighted')
         want = h.call('jesse.helpers.estimate_PNL', qty, h.attr(trade, 'entry_price'), h.attr(trade, 'exit_price'), ptype, fee)
         h.prove(ops.equal(h.attr(trade, 'pnl'), want), f'trade.{ptype}.pnl-is-profit-minus-fees')
+        # the record handed to the metrics (ClosedTrade.to_dict) carries exactly the trade's own numbers - no rounding, no
+        # recomputation: sum(PNL) over the records is the wallet change (C16 takes the records as given)
+        trade.f['strategy_name'] = 'S'
+        t_open = h.real('opened_at', 0)
+        t_close = h.real('closed_at', 0)
+        h.assume(ops.compare('>=', t_close, t_open))
+        trade.f['opened_at'], trade.f['closed_at'] = t_open, t_close
+        h.ctx.cfg.overrides['jesse.helpers.get_class_name'] = lambda i, a, k: 'S'
+        h.ctx.cfg.overrides['jesse.helpers.get_config'] = lambda i, a, k: fee
+        d = h.attr(trade, 'to_dict')
+        ok = isinstance(d, dict)
+        h.prove(ok, f'trade.{ptype}.to_dict-is-a-dict')
+        if ok:
+            same = True
+            for key, attr in (('PNL', 'pnl'), ('fee', 'fee'), ('size', 'size'), ('PNL_percentage', 'pnl_percentage'), ('qty', 'qty'),
+                              ('entry_price', 'entry_price'), ('exit_price', 'exit_price')):
+                same = ops.land(same, (key in d) and ops.equal(d[key], h.attr(trade, attr)))
+            h.prove(same, f'trade.{ptype}.to_dict-reports-the-trade-numbers-unchanged')
+            h.prove(ops.land(d.get('type') == ptype, ops.land(ops.equal(d.get('opened_at'), t_open), ops.land(ops.equal(d.get('closed_at'), t_close),
+                    ops.equal(d.get('holding_period'), ops.arith('/', ops.arith('-', t_close, t_open), 1000))))),
+                    f'trade.{ptype}.to_dict-reports-type-timestamps-and-holding-period-unchanged')
     return t
 
 
@@ -281,4 +303,8 @@ def tasks(tier):
         ts.append(Task(f'trade.{pt}', t_trade_fields(pt), extra=dict(x), overrides=dict(ov)))
     for kind in ('futures', 'spot'):
         ts.append(Task(f'terminate.{kind}', t_terminate(kind), extra=dict(x), overrides=dict(ov)))
+    # trade timestamps are the clock at the fill: in fast mode the clock must be the end of the minute that reached the price
+    import props.C01 as P1
+    import props.C02 as P2
+    ts.append(Task('fill-clock.chunk', P1.t_chunk_clock, extra=dict(x, spec_mod=P2.SPEC), overrides=dict(ov)))
     return ts
